@@ -6,6 +6,7 @@ import (
 	"fmt"
 	"time"
 
+	"github.com/xelaj/mtproto/zverif/hs"
 	"github.com/xelaj/mtproto/zverif/ref/rpcsrv"
 	"github.com/xelaj/mtproto/zverif/ref/tlw"
 	"github.com/xelaj/mtproto/zverif/sched"
@@ -44,6 +45,19 @@ func scenarios(thorough bool) []*sess.Scenario {
 				}
 			}},
 	}
+	// freshly keyed sessions: the key exchange runs first in the same execution (its requests leave entries in
+	// the response table), then the salt rotates
+	fresh := func(name string, rot map[int]int64, callers [][]sess.Call) *sess.Scenario {
+		f := hs.Scenario(name, hs.Base(), 5)
+		f.Opt, f.Callers = opt, callers
+		f.SaltAfterExchange = func(w *sess.World) { w.Srv.RotateBefore = rot }
+		return f
+	}
+	sc = append(sc,
+		fresh("F-n1-k1", map[int]int64{1: 200}, [][]sess.Call{{obj(1)}}),
+		fresh("F-n0-k1-probe", map[int]int64{2: 200}, [][]sess.Call{{obj(1), obj(2)}}),
+		fresh("F-n2-k1", map[int]int64{2: 200}, [][]sess.Call{{obj(1)}, {obj(2)}}),
+	)
 	if thorough {
 		sc = append(sc,
 			&sess.Scenario{Name: "R-n3-k1", Salt: 100, Opt: opt, RotateBefore: map[int]int64{2: 200}, Callers: [][]sess.Call{{obj(1)}, {obj(2)}, {obj(3)}}},
@@ -58,7 +72,7 @@ func i64(v int64) *int64 { return &v }
 func main() {
 	run := vr.New("C11", "model_checking")
 	run.Rule("histories with k salt rotations (fixed by the scenario: the salt changes just before the n-th frame; or free: a server event the explorer places) x n pending requests x all schedules and server answer orders within delay bound D and server-deviation bound E; oracle on every complete execution; non-trivial = at least one frame was rejected for a stale salt")
-	run.Assume("resumed sessions only in this tier set; freshly keyed sessions are covered by the F scenarios once the key-exchange reference server is linked (see DESIGN 4.11)",
+	run.Assume("F scenarios run the real key exchange against reference server R3 first (owned random stream), one delay bound lower because each execution repeats the exchange",
 		"a stall is decided structurally: a thread parked forever on a channel operation at quiescence")
 	D, E := 2, 1
 	budget := 100 * time.Second
@@ -70,7 +84,12 @@ func main() {
 	run.Set("server_deviation_bound", E)
 	run.Sample(map[string]any{"scenario": "R-n2-k1", "history": "caller0 request accepted under salt 100; salt rotates to 200; caller1 request rejected; server answers [bad_server_salt(tag=2), result(tag=1)] (deviation: out of order)"})
 	(&sess.XSpec{Run: run, Scenarios: scenarios(run.Thorough()), Budget: budget,
-		Bounds: func(*sess.Scenario) sched.Bounds { return sched.Bounds{Preemptions: -1, Delays: D, EnvDev: E} },
+		Bounds: func(sc *sess.Scenario) sched.Bounds {
+			if sc.Fresh != nil { // every execution repeats a ~35 ms key exchange: one bound lower
+				return sched.Bounds{Preemptions: -1, Delays: D - 1, EnvDev: E}
+			}
+			return sched.Bounds{Preemptions: -1, Delays: D, EnvDev: E}
+		},
 		Judge:  judge,
 		NonTrivial: func(w *sess.World) bool {
 			for _, f := range w.Srv.Frames {
@@ -80,7 +99,7 @@ func main() {
 			}
 			return false
 		},
-		AllowSingleObservation: map[string]bool{"R-n1-k1": true, "R-n1-k2": true, "R-n1-k2-probe": true, "R-stale-store-k2": true},
+		AllowSingleObservation: map[string]bool{"F-n1-k1": true, "F-n0-k1-probe": true, "R-n1-k1": true, "R-n1-k2": true, "R-n1-k2-probe": true, "R-stale-store-k2": true},
 	}).Main()
 }
 
